@@ -540,6 +540,72 @@ Verdict run_C18_cli(const Scn &s) {
   return v;
 }
 
+// ---------------------------------------------------------------- C06 on the command-line path
+// The user's key is a string.  A file written by `wencry -e -k <string>` must be rejected by `-v` and `-d` with the string
+// of every one-bit neighbour of that key (all 128), each command line executed in a pristine process of its own, and a
+// rejected decryption must leave no plaintext behind.
+Verdict run_C06_cli(const Scn &s) {
+  Verdict v;
+  char tmpl[512];
+  snprintf(tmpl, sizeof tmpl, "%s/c06-XXXXXX", g_outdir.empty() ? "/tmp" : g_outdir.c_str());
+  if (!mkdtemp(tmpl)) { snprintf(tmpl, sizeof tmpl, "/tmp/c06-XXXXXX"); if (!mkdtemp(tmpl)) { v.skipped = true; v.skip_reason = "no-scratch-dir"; return v; } }
+  std::string dir = tmpl;
+  Bytes key = s.getb("key");
+  if (key.size() != 16) { rm_rf(dir); v.skipped = true; v.skip_reason = "no-key"; return v; }
+  long simtime = 1700000000 + s.geti("file");
+  long len = s.geti("len"), pseed = s.geti("pseed", 7), cm = s.geti("cm"), hm = s.geti("hm");
+  auto run = [&](const std::string &tag, std::initializer_list<std::string> args, const Bytes &k, const Bytes &encinput, int need_enc, int outkind, bool &ok) {
+    Rec r;
+    r.kind = "argv";
+    r.data = k;
+    push_args(r, args);
+    r.a = {simtime, len, pseed, cm, hm, need_enc, outkind, simsched::ST_UNIFORM, 0, s.geti("ss0", 1), 0, 0};
+    int st;
+    std::vector<Outcome> o = in_child(dir + "/" + tag, [&]() { Outcome x = exec_op(r, encinput); send_outcome(x); }, st);
+    g_stats.add("history.fresh_forks", 1);
+    ok = o.size() == 1 && o[0].status == 1 && WIFEXITED(st) && WEXITSTATUS(st) == 0;
+    return ok ? o[0] : Outcome();
+  };
+  std::string k64 = b64(key.data(), 16);
+  bool ok;
+  Outcome e = run("e", {"wencry", "-e", "-i", "in0", "-o", "out0", "-k", k64, "--cmode", std::to_string(cm), "--hmode", std::to_string(hm), "-n"}, key, Bytes(), 0, 1, ok);
+  if (!ok || !e.ret || e.out.size() < 2 || e.out.back() != 1) { rm_rf(dir); v.skipped = true; v.skip_reason = "cli-encrypt-did-not-succeed"; return v; }
+  Bytes E(e.out.begin(), e.out.end() - 1);
+  Outcome same = run("s", {"wencry", "-v", "-i", "enc0", "-k", k64, "-n"}, key, E, 1, 0, ok);
+  if (!ok || !same.ret) { rm_rf(dir); v.skipped = true; v.skip_reason = "cli-verify-with-the-same-string-failed"; return v; }   // C01's business, not C06's
+  v.nontrivial = true;
+  v.case_hash = fnv1a(fnv1a_u64(FNV_INIT, (uint64_t)(cm * 8 + hm)), key.data(), 16);
+  v.trace_hash = fnv1a(FNV_INIT, E.data(), E.size());
+  g_stats.add("probe.cli_wrong_key_files", 1);
+  for (int j = 0; j < 128; j++) {
+    Bytes k2 = key;
+    k2[j / 8] ^= (uint8_t)(1u << (j % 8));
+    std::string w64 = b64(k2.data(), 16);
+    Outcome ver = run("v" + std::to_string(j), {"wencry", "-v", "-i", "enc0", "-k", w64, "-n"}, k2, E, 1, 0, ok);
+    std::string what;
+    if (!ok) { g_stats.add("skipped_cli_neighbour_abnormal", 1); continue; }   // does not terminate normally even when fresh: C04/C11/C17 matter
+    if (ver.ret) what = "`wencry -v` accepted";
+    else {
+      Outcome dec = run("d" + std::to_string(j), {"wencry", "-d", "-i", "enc0", "-o", "out0", "-k", w64, "-n"}, k2, E, 1, 1, ok);
+      if (!ok) { g_stats.add("skipped_cli_neighbour_abnormal", 1); continue; }
+      if (dec.ret) what = "`wencry -d` accepted";
+      else if (dec.out.size() > 1) what = "`wencry -d` reported failure but left " + std::to_string(dec.out.size() - 1) + " bytes of output for";
+    }
+    g_stats.add("fault.cli_key_bitflip", 1);
+    if (!what.empty()) {
+      rm_rf(dir);
+      Verdict x;
+      x.violation = true;
+      x.cls = "wrong-key-string-accepted@cli";
+      x.detail = what + " the key string " + w64 + " for a file written with -k " + k64 + " (the strings denote keys that differ in bit " + std::to_string(j) + ")";
+      x.case_hash = v.case_hash; x.trace_hash = v.trace_hash; x.nontrivial = true;
+      return x;
+    }
+  }
+  rm_rf(dir);
+  return v;
+}
+
 extern const PropDef PROPS_HISTORY[] = {
     {"C15", plan_C15, gen_C15, run_C15},
     {nullptr, nullptr, nullptr, nullptr}};
